@@ -405,11 +405,11 @@ pub fn run_c33(batch: &str, tape: &mut Tape, rep: &mut Report) {
     let timeout_ms = timeout_s * 1000;
     // pre-draw the event list so that the async block does not need the tape
     #[derive(Clone, Debug)]
-    enum Ev { Advance(u64), Heartbeat(u64), Sweep, Deploy { pin: Option<u64>, n: usize }, Migrate(u64), Drain(u64), Register(u64), Deregister(u64) }
+    enum Ev { Advance(u64), Heartbeat(u64), Sweep, Deploy { pin: Option<u64>, n: usize }, Migrate(u64), Drain(u64), Register(u64), Deregister(u64), SetStatus(u64, u8) }
     let mut evs = vec![];
     for _ in 0..nev {
         let w = tape.range(1, nworkers);
-        let e = match tape.draw(if raft { 8 } else { 14 }) {
+        let e = match tape.draw(if raft { 8 } else { 16 }) {
             0..=3 => Ev::Advance(match tape.draw(6) { 0 => 1, 1 => timeout_ms, 2 => timeout_ms - 1, 3 => timeout_ms + 1, 4 => tape.range(1, 20) * 500, _ => tape.range(1, 5) * 1000 }),
             4 | 5 => Ev::Heartbeat(w),
             6 | 7 => Ev::Sweep,
@@ -417,7 +417,10 @@ pub fn run_c33(batch: &str, tape: &mut Tape, rep: &mut Report) {
             10 => Ev::Migrate(w),
             11 => Ev::Drain(w),
             12 => Ev::Register(w),
-            _ => Ev::Deregister(w),
+            13 => Ev::Deregister(w),
+            // a status change made by another component (the statement's "status changes"): the worker is put into
+            // Draining (mostly), Unhealthy or back to Ready through the public field, as sync_from_raft and drain do
+            _ => Ev::SetStatus(w, match tape.draw(4) { 0 => 1, 1 => 2, _ => 0 }),
         };
         evs.push(e);
     }
@@ -549,7 +552,11 @@ pub fn run_c33(batch: &str, tape: &mut Tape, rep: &mut Report) {
                     }
                 }
                 Ev::Drain(w) => {
-                    if model.contains_key(&w) {
+                    if model.get(&w).map(|m| m.st == St::Draining).unwrap_or(false) {
+                        // draining a worker that is already Draining is an idempotent no-op (nothing moves, it stays registered)
+                        let r = api(&routes, "POST", &format!("/api/v1/cluster/workers/w{}/drain", w), Some(json!({}))).await;
+                        log.push(format!("#{} t={} drain w{} (already draining) -> {}", k, now, w, r.status));
+                    } else if model.contains_key(&w) {
                         let before = avail(&model);
                         let placed_before = { let c = coord.read().await; c.pipeline_groups.values().flat_map(|g| g.placements.iter().map(|(n, d)| (n.clone(), d.worker_id.0.clone()))).collect::<BTreeMap<_, _>>() };
                         let r = api(&routes, "POST", &format!("/api/v1/cluster/workers/w{}/drain", w), Some(json!({}))).await;
@@ -575,6 +582,15 @@ pub fn run_c33(batch: &str, tape: &mut Tape, rep: &mut Report) {
                     log.push(format!("#{} t={} register w{} -> {}", k, now, w, r.status));
                     if r.status / 100 == 2 {
                         model.insert(w, MW { st: St::Ready, last_hb_ms: now, running: 0, max: max_pipes });
+                    }
+                }
+                Ev::SetStatus(w, code) => {
+                    let (st, mst) = match code { 0 => (WorkerStatus::Draining, St::Draining), 1 => (WorkerStatus::Unhealthy, St::Unhealthy), _ => (WorkerStatus::Ready, St::Ready) };
+                    let mut c = coord.write().await;
+                    if let Some(wk) = c.workers.get_mut(&WorkerId(format!("w{}", w))) {
+                        wk.status = st.clone();
+                        log.push(format!("#{} t={} status of w{} set to {:?}", k, now, w, st));
+                        if let Some(m) = model.get_mut(&w) { m.st = mst; }
                     }
                 }
                 Ev::Deregister(w) => {
@@ -633,7 +649,7 @@ fn view(c: &Coordinator) -> BTreeMap<String, String> {
         v.insert(format!("group.{}.placements", g.name.clone() + "/" + &gid[..4.min(gid.len())]), format!("{:?}", p));
     }
     for (n, cn) in &c.connectors {
-        v.insert(format!("connector.{}", n), format!("{}:{:?}", cn.connector_type, { let mut p: Vec<_> = cn.params.iter().collect(); p.sort(); p }));
+        v.insert(format!("connector.{}", n), format!("{}/{}:{:?}", cn.name, cn.connector_type, { let mut p: Vec<_> = cn.params.iter().collect(); p.sort(); p }));
     }
     v
 }
@@ -840,7 +856,11 @@ pub fn run_c38(batch: &str, tape: &mut Tape, rep: &mut Report) {
                     Op::Drain(w) => { let r = call(target.routes.clone(), "POST", format!("/api/v1/cluster/workers/w{}/drain", w), Some(json!({})), key.clone()).await.map(|r| r.status); if r == Some(200) { gone.insert(*w); } r }
                     Op::Rebalance => call(target.routes.clone(), "POST", "/api/v1/cluster/rebalance".into(), None, key.clone()).await.map(|r| r.status),
                     Op::ConnCreate(k) => { let r = call(target.routes.clone(), "POST", "/api/v1/cluster/connectors".into(), Some(json!({"name": format!("conn{}", k), "connector_type": "mqtt", "params": {"host": format!("h{}", gen)}})), key.clone()).await.map(|r| r.status); if r.map(|s| s / 100 == 2).unwrap_or(false) { conns.insert(*k); } r }
-                    Op::ConnUpdate(k) => call(target.routes.clone(), "PUT", format!("/api/v1/cluster/connectors/conn{}", k), Some(json!({"name": format!("conn{}", k), "connector_type": "mqtt", "params": {"host": format!("u{}", gen)}})), key.clone()).await.map(|r| r.status),
+                    Op::ConnUpdate(k) => {
+                        // the body's own name need not repeat the path name (the handlers accept both)
+                        let body_name = if tape.chance(1, 3) { format!("conn{}-renamed", k) } else { format!("conn{}", k) };
+                        call(target.routes.clone(), "PUT", format!("/api/v1/cluster/connectors/conn{}", k), Some(json!({"name": body_name, "connector_type": "mqtt", "params": {"host": format!("u{}", gen)}})), key.clone()).await.map(|r| r.status)
+                    }
                     Op::ConnDelete(k) => { let r = call(target.routes.clone(), "DELETE", format!("/api/v1/cluster/connectors/conn{}", k), None, key.clone()).await.map(|r| r.status); if r.map(|s| s / 100 == 2).unwrap_or(false) { conns.remove(k); } r }
                     Op::WorkerBack(w) => {
                         // a dead worker restarts (empty) and registers again; a drained-away or live one simply registers again
